@@ -83,10 +83,10 @@ def _exp_of(x):
     return None if d is None else d[1]
 
 
-def policy_sets(policy, avecs, adiv=1):
+def policy_sets(policy, avecs, adiv=1, aoffset=0):
     """Per state: 1-based action indices whose vector equals the returned row (exactly, component by component)."""
     sets = []
-    want = [[x / adiv for x in v] for v in avecs]
+    want = [[(x + aoffset) / adiv for x in v] for v in avecs]
     for row in np.asarray(policy).reshape(len(policy), -1):
         r = [float(x) for x in row]
         sets.append([a + 1 for a, v in enumerate(want) if r == v])
@@ -479,6 +479,7 @@ def project(job, raw):
 
     avecs = mdp["render"]["avecs"]
     adiv = int(mdp["render"].get("adiv", 1))
+    aoff = int(mdp["render"].get("aoffset", 0))
     tr_events = []
     for ev in evs:
         vok, v = vec(ev["values"])
@@ -504,7 +505,7 @@ def project(job, raw):
         if ev["e"] == "sweep" and kind == "SAVI":
             rec["perm"] = [p + 1 for p in ev["perm"]] if ev.get("perm") is not None else list(range(1, ns + 1))
         if ev.get("policy") is not None:
-            sets = policy_sets(ev["policy"], avecs, adiv)
+            sets = policy_sets(ev["policy"], avecs, adiv, aoff)
             if len(sets) != ns:
                 sets = [[] for _ in range(ns)]
             rec["pol"] = sets
@@ -518,7 +519,7 @@ def project(job, raw):
             ook, o = vec(st["old"])
             nok, n = vec(st["new"])
             c = None if st["conv"] == float("inf") else at(st["conv"])
-            psets = policy_sets(st["policy"], avecs, adiv)
+            psets = policy_sets(st["policy"], avecs, adiv, aoff)
             rec["evals"].append({"n": st["n"], "ok": ook and nok and c is not None,
                                  "old": o, "new": n, "c": c or 0,
                                  "pick": [s[0] if s else 1 for s in psets]})
@@ -546,7 +547,7 @@ def project(job, raw):
              "max_eval_iter": job.get("max_eval_iter", 0), "reset": bool(job.get("reset", False)),
              "tag": job.get("tag")}
     if raw.get("start_policy") is not None:
-        sp = policy_sets(raw["start_policy"], avecs, adiv)
+        sp = policy_sets(raw["start_policy"], avecs, adiv, aoff)
         trace["startpol"] = [s[0] if s else 1 for s in sp]
         trace["startpolok"] = all(len(s) > 0 for s in sp)
     else:
@@ -557,7 +558,7 @@ def project(job, raw):
         trace["haspol0"] = bool(mdp["render"].get("has_init_policy"))
         trace["injectedpol"] = any((inj or {}).get("policy") is not None for inj in (job.get("injects") or []))
         if trace["haspol0"]:
-            sets = policy_sets(T.action_array(mdp["render"], mdp["na"])[np.array(mdp["pol0"])], avecs, adiv)
+            sets = policy_sets(T.action_array(mdp["render"], mdp["na"])[np.array(mdp["pol0"])], avecs, adiv, aoff)
             trace["pol0"] = [s[0] for s in sets]
         else:
             trace["pol0"] = [1] * ns
